@@ -233,11 +233,14 @@ pub struct C18Case {
     /// the trigger is crossed AGAIN right after the merge of tick k (and once more a tick later):
     /// merges are expected at ticks k, k+1 and k+2
     pub recross: bool,
+    /// at tick k another thread is in the middle of a set (its write to the active file takes a
+    /// while, it holds the writer lock): the merge of that tick waits for it and runs
+    pub writer_busy: bool,
 }
 
 impl C18Case {
     fn to_json(&self) -> Value {
-        json!({"engine": "vtime", "kind": "c18", "policy": format!("{:?}", self.policy), "trigger": format!("{:?}", self.trig), "k": self.k, "interval_ms": self.interval_ms, "jitter": self.jitter, "sync": match self.sync { SyncS::None => json!("none"), SyncS::Always => json!("always"), SyncS::Interval(d) => json!(d) }, "horizon": self.horizon, "fail_first_merge": self.fail_first_merge, "fail_sync_nth": self.fail_sync_nth, "recross": self.recross})
+        json!({"engine": "vtime", "kind": "c18", "policy": format!("{:?}", self.policy), "trigger": format!("{:?}", self.trig), "k": self.k, "interval_ms": self.interval_ms, "jitter": self.jitter, "sync": match self.sync { SyncS::None => json!("none"), SyncS::Always => json!("always"), SyncS::Interval(d) => json!(d) }, "horizon": self.horizon, "fail_first_merge": self.fail_first_merge, "fail_sync_nth": self.fail_sync_nth, "recross": self.recross, "writer_busy": self.writer_busy})
     }
     fn from_json(v: &Value) -> Option<C18Case> {
         Some(C18Case {
@@ -260,6 +263,7 @@ impl C18Case {
             fail_first_merge: v["fail_first_merge"].as_bool().unwrap_or(false),
             fail_sync_nth: v["fail_sync_nth"].as_u64().unwrap_or(0) as usize,
             recross: v["recross"].as_bool().unwrap_or(false),
+            writer_busy: v["writer_busy"].as_bool().unwrap_or(false),
         })
     }
 }
@@ -431,7 +435,42 @@ pub fn c18_case(dir: &Path, c: &C18Case) -> Result<String, V> {
                     merges_seen_at.push(tick);
                     continue;
                 }
+                let mut busy_user: Option<std::thread::JoinHandle<Result<(), String>>> = None;
+                if c.writer_busy && tick == c.k && refp && allowed {
+                    let h2 = h.clone();
+                    busy_user = Some(
+                        std::thread::Builder::new()
+                            .name("vh-user-op".into())
+                            .spawn(move || {
+                                iohook::stall_next_write_on_this_thread();
+                                h2.set(b("u"), b("v")).map_err(|e| e.to_string())
+                            })
+                            .unwrap(),
+                    );
+                    let t0 = Instant::now();
+                    while !iohook::stall_reached() {
+                        if t0.elapsed() > Duration::from_secs(6) {
+                            return Err(mach("the client's set did not reach its write"));
+                        }
+                        std::thread::sleep(Duration::from_micros(100));
+                    }
+                }
+                let go_before = events().iter().filter(|e| e.0 == "bg:merge:go").count();
                 release_one();
+                if let Some(u) = busy_user {
+                    // the tick is evaluated while the writer lock is held; then the set completes
+                    let t0 = Instant::now();
+                    while events().iter().filter(|e| e.0 == "bg:merge:go").count() == go_before && t0.elapsed() < Duration::from_millis(300) {
+                        std::thread::sleep(Duration::from_micros(200));
+                    }
+                    std::thread::sleep(Duration::from_millis(2));
+                    iohook::stall_release();
+                    match u.join() {
+                        Ok(Ok(())) => {}
+                        Ok(Err(e)) => return Err(mach(format!("the client's set failed: {}", e))),
+                        Err(_) => return Err(("client-set-panics".into(), "a set that was in progress at a merge tick panicked".into())),
+                    }
+                }
                 if refp && allowed {
                     // the merge must start now: wait for its hint file
                     let t0 = Instant::now();
@@ -565,7 +604,7 @@ fn c18_cases(tier: Tier) -> Vec<C18Case> {
                             if policy == Policy::Never && jitter != 0.3 {
                                 continue;
                             }
-                            v.push(C18Case { policy, trig, k, interval_ms, jitter, sync, horizon, fail_first_merge: false, fail_sync_nth: 0, recross: false });
+                            v.push(C18Case { policy, trig, k, interval_ms, jitter, sync, horizon, fail_first_merge: false, fail_sync_nth: 0, recross: false, writer_busy: false });
                         }
                     }
                 }
@@ -576,7 +615,7 @@ fn c18_cases(tier: Tier) -> Vec<C18Case> {
     // before it, the hour after it; the whole day
     for (a, b) in [(0i8, 1i8), (-1, 0), (-1, 1), (0, 0), (1, 2), (-2, -1), (1, 1), (-1, -1), (100, 100)] {
         for trig in [Trig::DeadBytes, Trig::None] {
-            v.push(C18Case { policy: Policy::Window(a, b), trig, k: 1, interval_ms: 1000, jitter: 0.0, sync: SyncS::None, horizon, fail_first_merge: false, fail_sync_nth: 0, recross: false });
+            v.push(C18Case { policy: Policy::Window(a, b), trig, k: 1, interval_ms: 1000, jitter: 0.0, sync: SyncS::None, horizon, fail_first_merge: false, fail_sync_nth: 0, recross: false, writer_busy: false });
         }
     }
     // a merge that fails must not end the periodic task: the next tick merges
@@ -584,7 +623,7 @@ fn c18_cases(tier: Tier) -> Vec<C18Case> {
         for interval_ms in [1000u64, 180_000] {
             for trig in [Trig::DeadBytes, Trig::Frag] {
                 for sync in [SyncS::None, SyncS::Interval(interval_ms / 3)] {
-                    v.push(C18Case { policy: Policy::Always, trig, k, interval_ms, jitter: 0.3, sync, horizon, fail_first_merge: true, fail_sync_nth: 0, recross: false });
+                    v.push(C18Case { policy: Policy::Always, trig, k, interval_ms, jitter: 0.3, sync, horizon, fail_first_merge: true, fail_sync_nth: 0, recross: false, writer_busy: false });
                 }
             }
         }
@@ -594,17 +633,30 @@ fn c18_cases(tier: Tier) -> Vec<C18Case> {
         for interval_ms in [1000u64, 180_000] {
             for jitter in [0.0, 0.1, 0.3, 1.0] {
                 for trig in [Trig::DeadBytes, Trig::Frag] {
-                    v.push(C18Case { policy: Policy::Always, trig, k, interval_ms, jitter, sync: SyncS::None, horizon, fail_first_merge: false, fail_sync_nth: 0, recross: true });
+                    v.push(C18Case { policy: Policy::Always, trig, k, interval_ms, jitter, sync: SyncS::None, horizon, fail_first_merge: false, fail_sync_nth: 0, recross: true, writer_busy: false });
+                }
+            }
+        }
+    }
+    // a client's set is in progress (inside the writer lock) when the tick comes: the merge waits
+    // for the lock and runs at THIS tick
+    for k in [1usize, 2] {
+        for interval_ms in [1000u64, 180_000] {
+            for jitter in [0.0, 0.3] {
+                for trig in [Trig::DeadBytes, Trig::Frag] {
+                    for sync in [SyncS::None, SyncS::Always] {
+                        v.push(C18Case { policy: Policy::Always, trig, k, interval_ms, jitter, sync, horizon, fail_first_merge: false, fail_sync_nth: 0, recross: false, writer_busy: true });
+                    }
                 }
             }
         }
     }
     // sync strategies on their own (merge never): interval 1 ms, 500 ms, 10 min
     for d in [1u64, 500, 600_000] {
-        v.push(C18Case { policy: Policy::Never, trig: Trig::None, k: 1, interval_ms: d * 4, jitter: 0.0, sync: SyncS::Interval(d), horizon: tier.pick(5, 10), fail_first_merge: false, fail_sync_nth: 0, recross: false });
+        v.push(C18Case { policy: Policy::Never, trig: Trig::None, k: 1, interval_ms: d * 4, jitter: 0.0, sync: SyncS::Interval(d), horizon: tier.pick(5, 10), fail_first_merge: false, fail_sync_nth: 0, recross: false, writer_busy: false });
         // a background fsync that fails must not end the periodic sync: the next interval syncs again
         for nth in [1usize, 2, 3] {
-            v.push(C18Case { policy: Policy::Never, trig: Trig::None, k: 1, interval_ms: d * 4, jitter: 0.0, sync: SyncS::Interval(d), horizon: tier.pick(5, 10), fail_first_merge: false, fail_sync_nth: nth, recross: false });
+            v.push(C18Case { policy: Policy::Never, trig: Trig::None, k: 1, interval_ms: d * 4, jitter: 0.0, sync: SyncS::Interval(d), horizon: tier.pick(5, 10), fail_first_merge: false, fail_sync_nth: nth, recross: false, writer_busy: false });
         }
     }
     v
